@@ -1030,4 +1030,9 @@ func (f *Frame) execSelect(st *State, x *ssa.Select) {
 	}
 	f.regs[x] = Value{Tuple: tup}
 	st.SetHeap("sel!last", idx)
+	if len(x.States) == 1 {
+		if cv := f.val(x.States[0].Chan); cv.T.Sort == SInt {
+			st.SetHeap("sel!chan", cv.T) // the channel the select received from / polled
+		}
+	}
 }
